@@ -1,4 +1,585 @@
+//! C03 — clamped, checked and unclamped conversions obey one bounds contract.
+//! (a) per type: full product of a per-component class lattice (far below … far above) through
+//!     clamp / clamp_assign / is_within_bounds, plain, with Alpha and as slices, against the
+//!     bounds returned by the type's own min/max accessors;
+//! (b) per discovered conversion edge and lattice value (in and out of range):
+//!     from_color == clamp(from_color_unclamped), try_from_color Ok/Err contract. All exact.
+use palette::cast::ArrayCast;
+use palette::{Alpha, Clamp, ClampAssign, IsWithinBounds};
+use pg::Graph;
+use pv::fl::Fl;
+use pv::{json, Collector, Ctx, Mode, Tier, Value};
+
+fn same<T: Fl>(a: T, b: T) -> bool {
+    a.bits64() == b.bits64() || a.to64() == b.to64()
+}
+fn bits<T: Fl>(v: &[T]) -> Vec<u64> {
+    v.iter().map(|x| x.bits64()).collect()
+}
+fn hex<T: Fl>(v: &[T]) -> Vec<String> {
+    v.iter().map(|x| format!("{:#x}", x.bits64())).collect()
+}
+fn f64s<T: Fl>(v: &[T]) -> Vec<f64> {
+    v.iter().map(|x| x.to64()).collect()
+}
+
+/// Runtime description of one colour type: its accessor bounds and its clamp functions.
+struct Spec<T: Fl> {
+    name: String,
+    n: usize,
+    /// (component index, min, Some(max) | None) as returned by the type's accessors
+    bounds: Vec<(usize, T, Option<T>)>,
+    /// whiteness + blackness <= max (HWB family): no reference *value* is imposed on those
+    coupled: bool,
+    clamp: Box<dyn Fn(&[T]) -> Vec<T> + Sync>,
+    clamp_assign: Box<dyn Fn(&[T]) -> Vec<T> + Sync>,
+    within: Box<dyn Fn(&[T]) -> bool + Sync>,
+    slice_clamp_assign: Box<dyn Fn(&[Vec<T>]) -> Vec<Vec<T>> + Sync>,
+    slice_within: Box<dyn Fn(&[Vec<T>]) -> bool + Sync>,
+    alpha_clamp: Box<dyn Fn(&[T], T) -> (Vec<T>, T) + Sync>,
+    alpha_clamp_assign: Box<dyn Fn(&[T], T) -> (Vec<T>, T) + Sync>,
+    alpha_within: Box<dyn Fn(&[T], T) -> bool + Sync>,
+}
+
+fn mk<C, T, const N: usize>(name: &str, bounds: Vec<(usize, T, Option<T>)>, coupled: bool) -> Spec<T>
+where
+    T: Fl + palette::stimulus::Stimulus + palette::num::PartialCmp<Mask = bool> + palette::num::Clamp + palette::num::ClampAssign + Clone,
+    C: ArrayCast<Array = [T; N]> + Clamp + ClampAssign + IsWithinBounds<Mask = bool> + Copy + 'static,
+{
+    let from = |v: &[T]| -> C {
+        let mut a = [T::from64(0.0); N];
+        a.copy_from_slice(&v[..N]);
+        palette::cast::from_array(a)
+    };
+    let to = |c: C| -> Vec<T> { palette::cast::into_array(c).to_vec() };
+    Spec {
+        name: name.to_string(),
+        n: N,
+        bounds,
+        coupled,
+        clamp: Box::new(move |v| to(from(v).clamp())),
+        clamp_assign: Box::new(move |v| {
+            let mut c = from(v);
+            c.clamp_assign();
+            to(c)
+        }),
+        within: Box::new(move |v| from(v).is_within_bounds()),
+        slice_clamp_assign: Box::new(move |vs| {
+            let mut cs: Vec<C> = vs.iter().map(|v| from(v)).collect();
+            cs[..].clamp_assign();
+            cs.into_iter().map(to).collect()
+        }),
+        slice_within: Box::new(move |vs| {
+            let cs: Vec<C> = vs.iter().map(|v| from(v)).collect();
+            cs[..].is_within_bounds()
+        }),
+        alpha_clamp: Box::new(move |v, a| {
+            let r = Alpha { color: from(v), alpha: a }.clamp();
+            (to(r.color), r.alpha)
+        }),
+        alpha_clamp_assign: Box::new(move |v, a| {
+            let mut r = Alpha { color: from(v), alpha: a };
+            r.clamp_assign();
+            (to(r.color), r.alpha)
+        }),
+        alpha_within: Box::new(move |v, a| Alpha { color: from(v), alpha: a }.is_within_bounds()),
+    }
+}
+
+macro_rules! specs_for {
+    ($T:ty) => {{
+        use palette::cam16::{Cam16, Cam16Jch, Cam16Jmh, Cam16Jsh, Cam16Qch, Cam16Qmh, Cam16Qsh, Cam16UcsJab, Cam16UcsJmh};
+        use palette::encoding::{self, Linear};
+        use palette::lms::VonKriesLms;
+        use palette::luma::Luma;
+        use palette::rgb::Rgb;
+        use palette::white_point::{D50, D65};
+        use palette::{Hsl, Hsluv, Hsv, Hwb, Lab, Lch, Lchuv, Luv, Okhsl, Okhsv, Okhwb, Oklab, Oklch, Xyz, Yxy};
+        type T = $T;
+        let s = |x: T| Some(x);
+        let mut v: Vec<Spec<T>> = vec![];
+        v.push(mk::<Rgb<encoding::Srgb, T>, T, 3>("Srgb", vec![(0, Rgb::<encoding::Srgb, T>::min_red(), s(Rgb::<encoding::Srgb, T>::max_red())), (1, Rgb::<encoding::Srgb, T>::min_green(), s(Rgb::<encoding::Srgb, T>::max_green())), (2, Rgb::<encoding::Srgb, T>::min_blue(), s(Rgb::<encoding::Srgb, T>::max_blue()))], false));
+        v.push(mk::<Rgb<Linear<encoding::Rec2020>, T>, T, 3>("LinRec2020", vec![(0, Rgb::<Linear<encoding::Rec2020>, T>::min_red(), s(Rgb::<Linear<encoding::Rec2020>, T>::max_red())), (1, Rgb::<Linear<encoding::Rec2020>, T>::min_green(), s(Rgb::<Linear<encoding::Rec2020>, T>::max_green())), (2, Rgb::<Linear<encoding::Rec2020>, T>::min_blue(), s(Rgb::<Linear<encoding::Rec2020>, T>::max_blue()))], false));
+        v.push(mk::<Luma<encoding::Srgb, T>, T, 1>("Luma<Srgb>", vec![(0, Luma::<encoding::Srgb, T>::min_luma(), s(Luma::<encoding::Srgb, T>::max_luma()))], false));
+        v.push(mk::<Xyz<D65, T>, T, 3>("Xyz<D65>", vec![(0, Xyz::<D65, T>::min_x(), s(Xyz::<D65, T>::max_x())), (1, Xyz::<D65, T>::min_y(), s(Xyz::<D65, T>::max_y())), (2, Xyz::<D65, T>::min_z(), s(Xyz::<D65, T>::max_z()))], false));
+        v.push(mk::<Xyz<D50, T>, T, 3>("Xyz<D50>", vec![(0, Xyz::<D50, T>::min_x(), s(Xyz::<D50, T>::max_x())), (1, Xyz::<D50, T>::min_y(), s(Xyz::<D50, T>::max_y())), (2, Xyz::<D50, T>::min_z(), s(Xyz::<D50, T>::max_z()))], false));
+        v.push(mk::<Yxy<D65, T>, T, 3>("Yxy", vec![(0, Yxy::<D65, T>::min_x(), s(Yxy::<D65, T>::max_x())), (1, Yxy::<D65, T>::min_y(), s(Yxy::<D65, T>::max_y())), (2, Yxy::<D65, T>::min_luma(), s(Yxy::<D65, T>::max_luma()))], false));
+        v.push(mk::<Lab<D65, T>, T, 3>("Lab", vec![(0, Lab::<D65, T>::min_l(), s(Lab::<D65, T>::max_l())), (1, Lab::<D65, T>::min_a(), s(Lab::<D65, T>::max_a())), (2, Lab::<D65, T>::min_b(), s(Lab::<D65, T>::max_b()))], false));
+        v.push(mk::<Luv<D65, T>, T, 3>("Luv", vec![(0, Luv::<D65, T>::min_l(), s(Luv::<D65, T>::max_l())), (1, Luv::<D65, T>::min_u(), s(Luv::<D65, T>::max_u())), (2, Luv::<D65, T>::min_v(), s(Luv::<D65, T>::max_v()))], false));
+        v.push(mk::<Lch<D65, T>, T, 3>("Lch", vec![(0, Lch::<D65, T>::min_l(), s(Lch::<D65, T>::max_l())), (1, Lch::<D65, T>::min_chroma(), None)], false)); // max_chroma()/max_extended_chroma() are documented as practical figures that "do not cover the entire color space", not as bounds
+        v.push(mk::<Lchuv<D65, T>, T, 3>("Lchuv", vec![(0, Lchuv::<D65, T>::min_l(), s(Lchuv::<D65, T>::max_l())), (1, Lchuv::<D65, T>::min_chroma(), s(Lchuv::<D65, T>::max_chroma()))], false));
+        v.push(mk::<Hsluv<D65, T>, T, 3>("Hsluv", vec![(1, Hsluv::<D65, T>::min_saturation(), s(Hsluv::<D65, T>::max_saturation())), (2, Hsluv::<D65, T>::min_l(), s(Hsluv::<D65, T>::max_l()))], false));
+        v.push(mk::<Hsl<encoding::Srgb, T>, T, 3>("Hsl", vec![(1, Hsl::<encoding::Srgb, T>::min_saturation(), s(Hsl::<encoding::Srgb, T>::max_saturation())), (2, Hsl::<encoding::Srgb, T>::min_lightness(), s(Hsl::<encoding::Srgb, T>::max_lightness()))], false));
+        v.push(mk::<Hsv<encoding::Srgb, T>, T, 3>("Hsv", vec![(1, Hsv::<encoding::Srgb, T>::min_saturation(), s(Hsv::<encoding::Srgb, T>::max_saturation())), (2, Hsv::<encoding::Srgb, T>::min_value(), s(Hsv::<encoding::Srgb, T>::max_value()))], false));
+        v.push(mk::<Hwb<encoding::Srgb, T>, T, 3>("Hwb", vec![(1, Hwb::<encoding::Srgb, T>::min_whiteness(), s(Hwb::<encoding::Srgb, T>::max_whiteness())), (2, Hwb::<encoding::Srgb, T>::min_blackness(), s(Hwb::<encoding::Srgb, T>::max_blackness()))], true));
+        v.push(mk::<Oklab<T>, T, 3>("Oklab", vec![(0, Oklab::<T>::min_l(), s(Oklab::<T>::max_l()))], false));
+        v.push(mk::<Oklch<T>, T, 3>("Oklch", vec![(0, Oklch::<T>::min_l(), s(Oklch::<T>::max_l())), (1, Oklch::<T>::min_chroma(), None)], false));
+        v.push(mk::<Okhsl<T>, T, 3>("Okhsl", vec![(1, Okhsl::<T>::min_saturation(), s(Okhsl::<T>::max_saturation())), (2, Okhsl::<T>::min_lightness(), s(Okhsl::<T>::max_lightness()))], false));
+        v.push(mk::<Okhsv<T>, T, 3>("Okhsv", vec![(1, Okhsv::<T>::min_saturation(), s(Okhsv::<T>::max_saturation())), (2, Okhsv::<T>::min_value(), s(Okhsv::<T>::max_value()))], false));
+        v.push(mk::<Okhwb<T>, T, 3>("Okhwb", vec![(1, Okhwb::<T>::min_whiteness(), s(Okhwb::<T>::max_whiteness())), (2, Okhwb::<T>::min_blackness(), s(Okhwb::<T>::max_blackness()))], true));
+        v.push(mk::<VonKriesLms<D65, T>, T, 3>("Lms", vec![(0, VonKriesLms::<D65, T>::min_long(), None), (1, VonKriesLms::<D65, T>::min_medium(), None), (2, VonKriesLms::<D65, T>::min_short(), None)], false));
+        let z: T = 0.0;
+        // CAM16: the documented lower bound of every attribute is zero, there is no upper bound
+        v.push(mk::<Cam16Jch<T>, T, 3>("Cam16Jch", vec![(0, z, None), (1, z, None)], false));
+        v.push(mk::<Cam16Jmh<T>, T, 3>("Cam16Jmh", vec![(0, z, None), (1, z, None)], false));
+        v.push(mk::<Cam16Jsh<T>, T, 3>("Cam16Jsh", vec![(0, z, None), (1, z, None)], false));
+        v.push(mk::<Cam16Qch<T>, T, 3>("Cam16Qch", vec![(0, z, None), (1, z, None)], false));
+        v.push(mk::<Cam16Qmh<T>, T, 3>("Cam16Qmh", vec![(0, z, None), (1, z, None)], false));
+        v.push(mk::<Cam16Qsh<T>, T, 3>("Cam16Qsh", vec![(0, z, None), (1, z, None)], false));
+        v.push(mk::<Cam16UcsJmh<T>, T, 3>("Cam16UcsJmh", vec![(0, Cam16UcsJmh::<T>::min_lightness(), s(Cam16UcsJmh::<T>::max_lightness())), (1, Cam16UcsJmh::<T>::min_colorfulness(), None)], false));
+        v.push(mk::<Cam16UcsJab<T>, T, 3>("Cam16UcsJab", vec![(0, Cam16UcsJab::<T>::min_lightness(), s(Cam16UcsJab::<T>::max_lightness()))], false));
+        v
+    }};
+}
+
+/// class lattice of one bounded component
+fn comp_lattice<T: Fl>(min: T, max: Option<T>, small: bool) -> Vec<T> {
+    let lo = min.to64();
+    match max {
+        Some(mx) => {
+            let hi = mx.to64();
+            if small {
+                vec![T::from64(lo - 10.0 * (hi - lo)), min.down(), min, T::from64(0.5 * (lo + hi)), mx, mx.up(), T::from64(hi + 10.0 * (hi - lo))]
+            } else {
+                pv::lattice::with_outside::<T>(lo, hi, 2)
+            }
+        }
+        None => {
+            let mut v = vec![T::from64(lo - 1e6), T::from64(lo - 1.0), min.down(), min, min.up(), T::from64(lo + 0.5), T::from64(lo + 1e6)];
+            if small {
+                v = vec![T::from64(lo - 1.0), min.down(), min, T::from64(lo + 0.5), T::from64(lo + 1e6)];
+            }
+            pv::lattice::dedup(v)
+        }
+    }
+}
+/// unbounded component (hue, a/b of Oklab, …)
+fn free_lattice<T: Fl>(small: bool) -> Vec<T> {
+    if small {
+        vec![T::from64(-400.0), T::from64(0.0), T::from64(361.5)]
+    } else {
+        vec![T::from64(-1e6), T::from64(-400.0), T::from64(-0.0), T::from64(0.0), T::from64(0.5), T::from64(180.0), T::from64(361.5), T::from64(1e6)]
+    }
+}
+
+fn input_class<T: Fl>(sp: &Spec<T>, v: &[T]) -> String {
+    // which components are below / above their bound
+    let mut s = String::new();
+    for &(i, mn, mx) in &sp.bounds {
+        let x = v[i].to64();
+        if x < mn.to64() {
+            s.push_str(&format!("c{i}<min,"));
+        } else if let Some(m) = mx {
+            if x > m.to64() {
+                s.push_str(&format!("c{i}>max,"));
+            }
+        }
+    }
+    if s.is_empty() {
+        "in-range".into()
+    } else {
+        s.trim_end_matches(',').to_string()
+    }
+}
+
+fn check_point<T: Fl>(sp: &Spec<T>, v: &[T], c: &mut Collector, cnt: &mut [u64; 3]) {
+    let tname = T::NAME;
+    let mk = |what: &str, obs: Value, exp: Value| json!({"sub": "type", "type": sp.name, "float": tname, "what": what, "input": hex(v), "value": f64s(v), "observed": obs, "expected": exp});
+    let sig = |check: &str, cls: &str| format!("C03/{}/{}<{}>/{}", check, sp.name, tname, cls);
+    let cls = input_class(sp, v);
+    cnt[0] += 1;
+    let r = match pv::catch(|| ((sp.clamp)(v), (sp.clamp_assign)(v), (sp.within)(v))) {
+        Ok(x) => x,
+        Err(msg) => {
+            c.violation(&sig("panic", &cls), 1.0, || mk("clamp", json!({"panic": msg}), json!("no panic")));
+            return;
+        }
+    };
+    let (cl, cla, within) = r;
+    cnt[1] += 3;
+    // accessor-defined membership
+    let mut acc_within = true;
+    for &(i, mn, mx) in &sp.bounds {
+        let x = v[i].to64();
+        if x < mn.to64() || mx.map(|m| x > m.to64()).unwrap_or(false) {
+            acc_within = false;
+        }
+    }
+    let sum_ok = |w: &[T]| -> bool {
+        if !sp.coupled {
+            return true;
+        }
+        let (iw, ib) = (sp.bounds[0].0, sp.bounds[1].0);
+        let mx = sp.bounds[0].2.unwrap();
+        // computed in the component type, like the implementation must
+        T::from64(w[iw].to64()).to64() + 0.0 <= f64::INFINITY && {
+            let s = T::from64(w[iw].to64() + w[ib].to64());
+            // sum rounded to T (the library adds in T)
+            s.to64() <= mx.to64()
+        }
+    };
+    let acc_within_full = acc_within && sum_ok(v);
+    cnt[2] += 1;
+    if within != acc_within_full {
+        c.violation(&sig("is_within_bounds-vs-accessors", &cls), 1.0, || mk("is_within_bounds", json!(within), json!({"by_accessors": acc_within_full})));
+    }
+    // clamp result reports itself within bounds
+    let w2 = pv::catch(|| (sp.within)(&cl)).unwrap_or(false);
+    cnt[1] += 1;
+    cnt[2] += 1;
+    if !w2 {
+        c.violation(&sig("clamp-within-bounds", &cls), 1.0, || mk("clamp().is_within_bounds()", json!({"clamped": f64s(&cl), "within": w2}), json!(true)));
+    }
+    // … and lies within the accessor bounds
+    for &(i, mn, mx) in &sp.bounds {
+        let x = cl[i].to64();
+        let over = if x < mn.to64() { mn.to64() - x } else if let Some(m) = mx { if x > m.to64() { x - m.to64() } else { 0.0 } } else { 0.0 };
+        cnt[2] += 1;
+        if over > 0.0 || x.is_nan() {
+            c.violation(&sig("clamp-vs-accessor-bounds", &format!("c{i}/{cls}")), over, || mk("clamp() component outside [min_*(), max_*()]", json!({"clamped": f64s(&cl), "component": i}), json!({"min": mn.to64(), "max": mx.map(|m| m.to64())})));
+        }
+        if !sp.coupled {
+            // independently bounded component: reference clamp
+            let want = {
+                let mut y = v[i].to64();
+                if y < mn.to64() {
+                    y = mn.to64();
+                }
+                if let Some(m) = mx {
+                    if y > m.to64() {
+                        y = m.to64();
+                    }
+                }
+                T::from64(y)
+            };
+            if !same(cl[i], want) && over == 0.0 {
+                c.violation(&sig("clamp-value", &format!("c{i}/{cls}")), (cl[i].to64() - want.to64()).abs(), || mk("clamp() component value", json!({"clamped": f64s(&cl), "component": i}), json!(want.to64())));
+            }
+        }
+    }
+    // unbounded components untouched
+    for i in 0..sp.n {
+        if !sp.bounds.iter().any(|b| b.0 == i) && cl[i].bits64() != v[i].bits64() {
+            c.violation(&sig("clamp-touches-unbounded", &format!("c{i}")), 1.0, || mk("clamp() changed an unbounded component", json!(f64s(&cl)), json!(f64s(v))));
+        }
+    }
+    // in bounds => unchanged (bitwise)
+    if within && bits(&cl) != bits(v) {
+        c.violation(&sig("clamp-identity-in-bounds", &cls), 1.0, || mk("clamp() of an in-bounds colour", json!(f64s(&cl)), json!(f64s(v))));
+    }
+    // idempotent
+    let cl2 = pv::catch(|| (sp.clamp)(&cl)).unwrap_or_default();
+    cnt[1] += 1;
+    cnt[2] += 2;
+    if bits(&cl2) != bits(&cl) {
+        c.violation(&sig("clamp-idempotent", &cls), 1.0, || mk("clamp(clamp(x))", json!(f64s(&cl2)), json!(f64s(&cl))));
+    }
+    // clamp_assign == clamp
+    if bits(&cla) != bits(&cl) {
+        c.violation(&sig("clamp_assign-vs-clamp", &cls), 1.0, || mk("clamp_assign", json!(f64s(&cla)), json!(f64s(&cl))));
+    }
+    c.outcome(pv::fnv(format!("{:?}{}", bits(&cl), within).as_bytes()));
+}
+
+fn check_alpha_and_slices<T: Fl>(sp: &Spec<T>, pts: &[Vec<T>], c: &mut Collector, cnt: &mut [u64; 3]) {
+    let tname = T::NAME;
+    let sig = |check: &str| format!("C03/{}/{}<{}>", check, sp.name, tname);
+    let alphas = [T::from64(-1.0), T::from64(0.0).down(), T::from64(0.0), T::from64(0.5), T::from64(1.0), T::from64(1.0).up(), T::from64(3.0)];
+    // a 6-point subset: in, out, boundary
+    let pick: Vec<&Vec<T>> = {
+        let n = pts.len();
+        [0, n / 5, 2 * n / 5, n / 2, 4 * n / 5, n - 1].iter().map(|&i| &pts[i]).collect()
+    };
+    for v in pts.iter().step_by((pts.len() / 400).max(1)) {
+        let base = (sp.clamp)(v);
+        let w = (sp.within)(v);
+        for &a in &alphas {
+            cnt[0] += 1;
+            cnt[1] += 3;
+            cnt[2] += 3;
+            let mk = |what: &str, obs: Value, exp: Value| json!({"sub": "alpha", "type": sp.name, "float": tname, "what": what, "input": hex(v), "alpha": a.to64(), "observed": obs, "expected": exp});
+            match pv::catch(|| ((sp.alpha_clamp)(v, a), (sp.alpha_clamp_assign)(v, a), (sp.alpha_within)(v, a))) {
+                Err(msg) => c.violation(&sig("alpha-panic"), 1.0, || mk("Alpha clamp", json!({"panic": msg}), json!("no panic"))),
+                Ok(((cc, ca), (ac, aa), aw)) => {
+                    let want_a = T::from64(a.to64().clamp(0.0, 1.0));
+                    if bits(&cc) != bits(&base) || !same(ca, want_a) {
+                        c.violation(&sig("alpha-clamp"), 1.0, || mk("Alpha::clamp", json!({"color": f64s(&cc), "alpha": ca.to64()}), json!({"color": f64s(&base), "alpha": want_a.to64()})));
+                    }
+                    if bits(&ac) != bits(&cc) || aa.bits64() != ca.bits64() {
+                        c.violation(&sig("alpha-clamp_assign"), 1.0, || mk("Alpha::clamp_assign", json!({"color": f64s(&ac), "alpha": aa.to64()}), json!({"color": f64s(&cc), "alpha": ca.to64()})));
+                    }
+                    let want_w = w && a.to64() >= 0.0 && a.to64() <= 1.0;
+                    if aw != want_w {
+                        c.violation(&sig("alpha-is_within_bounds"), 1.0, || mk("Alpha::is_within_bounds", json!(aw), json!(want_w)));
+                    }
+                }
+            }
+        }
+    }
+    // slices: all sequences of length 0..=3 over the 6-colour subset
+    let mut seqs: Vec<Vec<usize>> = vec![vec![]];
+    for len in 1..=3usize {
+        let mut idx = vec![0usize; len];
+        loop {
+            seqs.push(idx.clone());
+            let mut k = len;
+            loop {
+                if k == 0 {
+                    break;
+                }
+                k -= 1;
+                idx[k] += 1;
+                if idx[k] < pick.len() {
+                    break;
+                }
+                idx[k] = 0;
+                if k == 0 {
+                    k = usize::MAX;
+                    break;
+                }
+            }
+            if k == usize::MAX {
+                break;
+            }
+        }
+    }
+    for s in &seqs {
+        let vs: Vec<Vec<T>> = s.iter().map(|&i| pick[i].clone()).collect();
+        cnt[0] += 1;
+        cnt[1] += 2;
+        cnt[2] += 2;
+        let mk = |what: &str, obs: Value, exp: Value| json!({"sub": "slice", "type": sp.name, "float": tname, "what": what, "input": vs.iter().map(|v| hex(v)).collect::<Vec<_>>(), "observed": obs, "expected": exp});
+        match pv::catch(|| ((sp.slice_clamp_assign)(&vs), (sp.slice_within)(&vs))) {
+            Err(msg) => c.violation(&sig("slice-panic"), 1.0, || mk("slice", json!({"panic": msg}), json!("no panic"))),
+            Ok((cl, w)) => {
+                let want: Vec<Vec<T>> = vs.iter().map(|v| (sp.clamp)(v)).collect();
+                if cl.iter().map(|v| bits(v)).collect::<Vec<_>>() != want.iter().map(|v| bits(v)).collect::<Vec<_>>() {
+                    c.violation(&sig("slice-clamp_assign"), 1.0, || mk("[C]::clamp_assign", json!(cl.iter().map(|v| f64s(v)).collect::<Vec<_>>()), json!(want.iter().map(|v| f64s(v)).collect::<Vec<_>>())));
+                }
+                let want_w = vs.iter().all(|v| (sp.within)(v));
+                if w != want_w {
+                    c.violation(&sig("slice-is_within_bounds"), 1.0, || mk("[C]::is_within_bounds", json!(w), json!(want_w)));
+                }
+            }
+        }
+    }
+}
+
+fn points_for<T: Fl>(sp: &Spec<T>) -> Vec<Vec<T>> {
+    let small = sp.n > 4;
+    let lats: Vec<Vec<T>> = (0..sp.n)
+        .map(|i| match sp.bounds.iter().find(|b| b.0 == i) {
+            Some(&(_, mn, mx)) => comp_lattice(mn, mx, small),
+            None => free_lattice::<T>(small || sp.n >= 3 && sp.bounds.len() >= 2),
+        })
+        .collect();
+    let mut out: Vec<Vec<T>> = vec![vec![]];
+    for l in &lats {
+        let mut next = Vec::with_capacity(out.len() * l.len());
+        for p in &out {
+            for &x in l {
+                let mut q = p.clone();
+                q.push(x);
+                next.push(q);
+            }
+        }
+        out = next;
+    }
+    out
+}
+
+fn run_types<T: Fl>(ctx: &Ctx, specs: &[Spec<T>], total: &mut Collector) {
+    let sub = format!("types/{}", T::NAME);
+    if !ctx.wants(&sub) {
+        return;
+    }
+    let cc = pv::par::run_chunks(specs.len(), |i, c| {
+        let sp = &specs[i];
+        let pts = points_for(sp);
+        let mut cnt = [0u64; 3];
+        for p in &pts {
+            check_point(sp, p, c, &mut cnt);
+        }
+        check_alpha_and_slices(sp, &pts, c, &mut cnt);
+        let nontrivial = pts.iter().filter(|p| input_class(sp, p) != "in-range").count() as u64;
+        c.add(&sub, cnt[0], cnt[1], cnt[2], nontrivial);
+        c.sample(pv::splitmix(i as u64 ^ ctx.seed), || json!({"type": sp.name, "float": T::NAME, "point": f64s(&pts[pts.len() / 3]), "clamped": f64s(&(sp.clamp)(&pts[pts.len() / 3]))}));
+    });
+    total.merge(cc);
+    total.exhaustive(&sub, true, &format!("{} colour types: full product over components of the class lattice {{far below, just below, min−ulp, min, min+ulp, inside…, max−ulp, max, max+ulp, just above, far above}} (unbounded components: 8 values); Alpha form with 7 alphas; all slices of length 0..=3 over a 6-colour subset", specs.len()));
+}
+
+// ---------------------------------------------------------------------------------------
+// (b) conversion edges
+
+fn edge_values<T: Fl>(g: &Graph<T>, a: usize, dense: bool) -> Vec<[T; 3]> {
+    let kind = g.nodes[a].kind;
+    let mut vals: Vec<[f64; 3]> = kind.lattice(dense);
+    // out-of-range values: scale the lattice away from its centre
+    let extra: Vec<[f64; 3]> = vals.iter().step_by(7).flat_map(|v| vec![[v[0] * 1.5 + 0.1, v[1] * 1.5 - 0.3, v[2] * 1.25], [v[0] - 0.5, v[1] * 2.0, -v[2]], [v[0] * 1.0001, v[1], v[2] * 0.9999 - 1e-7]]).collect();
+    vals.extend(extra);
+    let mut out: Vec<[T; 3]> = vals.into_iter().filter(|v| v.iter().all(|x| x.is_finite())).map(|v| [T::from64(v[0]), T::from64(v[1]), T::from64(v[2])]).collect();
+    out.sort_by_key(|v| [v[0].bits64(), v[1].bits64(), v[2].bits64()]);
+    out.dedup_by_key(|v| [v[0].bits64(), v[1].bits64(), v[2].bits64()]);
+    out
+}
+
+fn check_edge_value<T: Fl>(g: &Graph<T>, a: usize, b: usize, v: [T; 3], c: &mut Collector, cnt: &mut [u64; 3]) {
+    let (Some(unc), Some(clamped), Some(tryc), Some((clamp_b, within_b))) = (g.unc[a][b], g.clamped[a][b], g.tryc[a][b], g.clamp[b]) else { return };
+    let sig = |check: &str| format!("C03/{}/{}/{}/{}->{}", check, g.name, T::NAME, g.nodes[a].name, g.nodes[b].name);
+    let mk = |what: &str, obs: Value, exp: Value| json!({"sub": "edge", "group": g.name, "float": T::NAME, "path": [g.nodes[a].name, g.nodes[b].name], "what": what, "input": hex(&v), "value": f64s(&v), "observed": obs, "expected": exp});
+    cnt[0] += 1;
+    let r = pv::catch(|| {
+        let u = unc(v);
+        (u, clamped(v), tryc(v), clamp_b(u), within_b(u))
+    });
+    cnt[1] += 5;
+    match r {
+        Err(msg) => {
+            // a panic in a conversion is C07's business unless only one of the forms panics
+            let _ = msg;
+        }
+        Ok((u, cl, t, want_cl, w)) => {
+            if !u.iter().all(|x| x.finite()) {
+                return; // non-finite intermediate: outside this property's quantifier (finite components)
+            }
+            cnt[2] += 2;
+            if bits(&cl) != bits(&want_cl) {
+                c.violation(&sig("from_color-vs-unclamped+clamp"), 1.0, || mk("from_color", json!(f64s(&cl)), json!({"unclamped": f64s(&u), "then_clamp": f64s(&want_cl)})));
+            }
+            match t {
+                Ok(x) => {
+                    if !w || bits(&x) != bits(&u) {
+                        c.violation(&sig("try_from_color-ok"), 1.0, || mk("try_from_color returned Ok", json!({"ok": f64s(&x)}), json!({"unclamped": f64s(&u), "unclamped_within_bounds": w})));
+                    }
+                }
+                Err(x) => {
+                    if w || bits(&x) != bits(&u) {
+                        c.violation(&sig("try_from_color-err"), 1.0, || mk("try_from_color returned Err", json!({"err_color": f64s(&x)}), json!({"unclamped": f64s(&u), "unclamped_within_bounds": w})));
+                    }
+                }
+            }
+            c.outcome(pv::fnv(format!("{:?}{}", bits(&cl), w).as_bytes()));
+        }
+    }
+}
+
+fn run_graph<T: Fl>(ctx: &Ctx, g: &Graph<T>, dense: bool, total: &mut Collector) {
+    let sub = format!("edges/{}/{}", g.name, T::NAME);
+    if !ctx.wants(&sub) {
+        return;
+    }
+    let n = g.n();
+    let vals: Vec<Vec<[T; 3]>> = (0..n).map(|a| edge_values(g, a, dense)).collect();
+    let mut items = vec![];
+    for a in 0..n {
+        let per = 256;
+        let mut i = 0;
+        while i < vals[a].len() {
+            items.push((a, i, (i + per).min(vals[a].len())));
+            i += per;
+        }
+    }
+    let (items_ref, vals_ref) = (&items, &vals);
+    let cc = pv::par::run_chunks(items.len(), |ci, c| {
+        let (a, lo, hi) = items_ref[ci];
+        let mut cnt = [0u64; 3];
+        let mut states = 0u64;
+        for i in lo..hi {
+            states += 1;
+            for b in 0..n {
+                check_edge_value(g, a, b, vals_ref[a][i], c, &mut cnt);
+            }
+        }
+        c.add(&sub, states, cnt[1], cnt[2], states);
+    });
+    total.merge(cc);
+    total.exhaustive(&sub, true, &format!("{} nodes, every discovered FromColor/TryFromColor edge x every lattice value of the source (in range + scaled out of range)", n));
+}
+
+macro_rules! with_graph {
+    ($group:expr, $float:expr, |$g:ident| $body:expr) => {
+        match ($group, $float) {
+            ("D65-core", "f32") => { let $g = pga::d65_f32(); $body }
+            ("D65-core", "f64") => { let $g = pgb::d65_f64(); $body }
+            ("D65-cylindrical", "f32") => { let $g = pgc::d65cyl_f32(); $body }
+            ("D65-cylindrical", "f64") => { let $g = pgc::d65cyl_f64(); $body }
+            ("D50", "f32") => { let $g = pgd::d50_f32(); $body }
+            ("D50", "f64") => { let $g = pgd::d50_f64(); $body }
+            ("DCI", "f32") => { let $g = pgd::dci_f32(); $body }
+            ("DCI", "f64") => { let $g = pgd::dci_f64(); $body }
+            (g, f) => { eprintln!("unknown graph {g}/{f}"); std::process::exit(3) }
+        }
+    };
+}
+
+fn replay(c: &mut Collector, rep: &Value) {
+    let case = &rep["case"];
+    let float = case["float"].as_str().unwrap_or("f32").to_string();
+    let inbits = |v: &Value| -> Vec<u64> { v.as_array().map(|a| a.iter().map(|x| u64::from_str_radix(x.as_str().unwrap_or("0").trim_start_matches("0x"), 16).unwrap_or(0)).collect()).unwrap_or_default() };
+    match case["sub"].as_str().unwrap_or("") {
+        "edge" => {
+            let group = case["group"].as_str().unwrap_or("").to_string();
+            let path: Vec<String> = case["path"].as_array().map(|a| a.iter().map(|x| x.as_str().unwrap_or("").to_string()).collect()).unwrap_or_default();
+            let b = inbits(&case["input"]);
+            fn go<T: Fl>(g: &Graph<T>, path: &[String], b: &[u64], c: &mut Collector) {
+                let (ia, ib) = (g.index(&path[0]).expect("node"), g.index(&path[1]).expect("node"));
+                let mut cnt = [0u64; 3];
+                check_edge_value(g, ia, ib, [T::from_bits64(b[0]), T::from_bits64(b[1]), T::from_bits64(b[2])], c, &mut cnt);
+            }
+            with_graph!(group.as_str(), float.as_str(), |g| go(&g, &path, &b, c));
+        }
+        _ => {
+            let ty = case["type"].as_str().unwrap_or("").to_string();
+            fn go<T: Fl>(specs: Vec<Spec<T>>, ty: &str, case: &Value, b: Vec<u64>, c: &mut Collector) {
+                let sp = specs.iter().find(|s| s.name == ty).expect("type");
+                let mut cnt = [0u64; 3];
+                if case["sub"] == "type" {
+                    let v: Vec<T> = b.iter().map(|x| T::from_bits64(*x)).collect();
+                    check_point(sp, &v, c, &mut cnt);
+                    println!("clamp({:?}) = {:?}, is_within_bounds = {}", f64s(&v), f64s(&(sp.clamp)(&v)), (sp.within)(&v));
+                } else {
+                    let pts = points_for(sp);
+                    check_alpha_and_slices(sp, &pts, c, &mut cnt);
+                }
+            }
+            let b = inbits(&case["input"]);
+            if float == "f32" {
+                go::<f32>(specs_for!(f32), &ty, case, b, c)
+            } else {
+                go::<f64>(specs_for!(f64), &ty, case, b, c)
+            }
+        }
+    }
+}
+
 fn main() {
-    eprintln!("C03: check not built yet");
-    std::process::exit(3);
+    pv::main_guard(real_main)
+}
+
+fn real_main() -> i32 {
+    let (ctx, mode) = Ctx::from_args("C03");
+    if let Mode::Replay(rep) = mode {
+        let mut c = Collector::new();
+        replay(&mut c, &rep);
+        return ctx.finish_replay(c);
+    }
+    let mut total = Collector::new();
+    run_types::<f32>(&ctx, &specs_for!(f32), &mut total);
+    run_types::<f64>(&ctx, &specs_for!(f64), &mut total);
+    let dense = ctx.tier == Tier::Thorough;
+    run_graph(&ctx, &pga::d65_f32(), dense, &mut total);
+    run_graph(&ctx, &pgb::d65_f64(), dense, &mut total);
+    run_graph(&ctx, &pgc::d65cyl_f32(), dense, &mut total);
+    run_graph(&ctx, &pgc::d65cyl_f64(), dense, &mut total);
+    run_graph(&ctx, &pgd::d50_f32(), dense, &mut total);
+    run_graph(&ctx, &pgd::d50_f64(), dense, &mut total);
+    run_graph(&ctx, &pgd::dci_f32(), dense, &mut total);
+    run_graph(&ctx, &pgd::dci_f64(), dense, &mut total);
+    ctx.finish(
+        total,
+        "model_checking",
+        "states = colours of the per-type class-lattice product (each component independently far below / just below / at / inside / at / just above / far above its accessor bound) and (edge, lattice value) pairs; transitions = clamp / clamp_assign / is_within_bounds / from_color / try_from_color / from_color_unclamped calls; traces = contract relations evaluated; non-trivial = colours with at least one component out of bounds",
+        &["all comparisons are exact (bitwise; −0 == +0 for a clamped value)", "the bounds are read from the type's own min_*/max_* accessors at run time; CAM16 attributes have the documented lower bound 0", "HWB family: no reference value is imposed on the coupled whiteness/blackness, only what the statement says"],
+    )
 }
